@@ -93,4 +93,23 @@ def run(tier: str, seed: int, rep: Report, model: Model) -> dict:
             rep.disagreement({"what": "model and implementation differ", **rec})
         if rep.many_violations():
             break
+    # every exported class x every shared dtype: the answer must not depend on the library (this is also the search
+    # for a concrete input when the finite theorem over the regenerated tables no longer checks)
+    from harness import impl as I
+    from harness.props import c04
+
+    sweep = [{"cls": c, "lib": l, "dt": d} for c in I.TENSOR_CLASSES for d in SHARED_DT for l in libs]
+    w2 = ImplWorker("harness.props.c04")
+    try:
+        sres = w2.call_many("impl_accepts", sweep)
+    finally:
+        w2.close()
+    table: dict = {}
+    for t, r in zip(sweep, sres):
+        table.setdefault((t["cls"], t["dt"]), {})[t["lib"]] = r.get("v")
+    for (c, d), per in table.items():
+        rep.case(("dtype", c, d), None)
+        rep.count("dtype_sweep")
+        if len(set(per.values())) != 1:
+            rep.violation({"what": "a class gives different answers for the same (shared) dtype depending on the array library", "class": c, "dtype": d, "per_library": per})
     return {"libraries": libs}
